@@ -16,6 +16,7 @@ fn main() {
         "verify" => protocol::run_verify(&mut ctx, &args[2..]),
         "kernels" => kernels::run(&mut ctx, &args[2..]),
         "kzg" => kernels::run_kzg(&mut ctx, &args[2..]),
+        "roundtrip" => protocol::run_roundtrip(&mut ctx, &args[2..]),
         "prove_w" => protocol::run_prove_w(&mut ctx, &args[2..]),
         "prove" => protocol::run_prove(&mut ctx, &args[2..]),
         "extract" => gadgets::run(&mut ctx, &args[2..]),
